@@ -23,7 +23,7 @@ use rustc_middle::mir::{
     self, AggregateKind, BasicBlockData, Body, BorrowKind, CastKind, Const, ConstValue, Operand,
     Place, PlaceElem, Rvalue, StatementKind, TerminatorKind, UnwindAction,
 };
-use rustc_middle::ty::print::{with_crate_prefix, with_no_trimmed_paths};
+use rustc_middle::ty::print::{with_crate_prefix, with_no_trimmed_paths, with_no_visible_paths};
 use rustc_middle::ty::{self, Instance, Ty, TyCtxt, TypeVisitableExt, TypingEnv};
 use std::fmt::Write as _;
 
@@ -83,11 +83,11 @@ fn def_key(tcx: TyCtxt<'_>, def_id: DefId) -> String {
 }
 
 fn def_str(tcx: TyCtxt<'_>, def_id: DefId) -> String {
-    with_crate_prefix!(with_no_trimmed_paths!(tcx.def_path_str(def_id)))
+    with_no_visible_paths!(with_crate_prefix!(with_no_trimmed_paths!(tcx.def_path_str(def_id))))
 }
 
 fn ty_str(t: Ty<'_>) -> String {
-    with_crate_prefix!(with_no_trimmed_paths!(t.to_string()))
+    with_no_visible_paths!(with_crate_prefix!(with_no_trimmed_paths!(t.to_string())))
 }
 
 fn span_str(tcx: TyCtxt<'_>, sp: rustc_span::Span) -> String {
@@ -296,7 +296,7 @@ impl<'a, 'tcx> Cx<'a, 'tcx> {
         let mut v: Vec<(&str, String)> = Vec::new();
         v.push(("decl", esc(&def_key(tcx, def_id))));
         v.push(("declstr", esc(&def_str(tcx, def_id))));
-        let argstrs: Vec<String> = args.iter().map(|a| esc(&with_crate_prefix!(with_no_trimmed_paths!(a.to_string())))).collect();
+        let argstrs: Vec<String> = args.iter().map(|a| esc(&with_no_visible_paths!(with_crate_prefix!(with_no_trimmed_paths!(a.to_string()))))).collect();
         v.push(("args", arr(&argstrs)));
         // is the declaration a trait method?
         let trait_of = tcx.trait_of_assoc(def_id);
@@ -341,7 +341,7 @@ impl<'a, 'tcx> Cx<'a, 'tcx> {
                 v.push(("key", esc(&def_key(tcx, rid))));
                 v.push(("str", esc(&def_str(tcx, rid))));
                 let rargs: Vec<String> =
-                    inst.args.iter().map(|a| esc(&with_crate_prefix!(with_no_trimmed_paths!(a.to_string())))).collect();
+                    inst.args.iter().map(|a| esc(&with_no_visible_paths!(with_crate_prefix!(with_no_trimmed_paths!(a.to_string()))))).collect();
                 v.push(("rargs", arr(&rargs)));
                 v.push(("crate", esc(&crate_name(tcx, rid))));
                 v.push(("has_mir", b(tcx.is_mir_available(rid))));
